@@ -471,11 +471,11 @@ def c07_model_jobs(tier, seed):
     jobs = [("partition-exhaustive",
              cfg_text({"MaxV": 5 if q else 6, "GenSeed": 1, "NCases": 0, "Emit": "FALSE"}, "InitA", "NextA", ["InvA"]),
              4 if q else 8, 6000, False)]
-    ngen = 5 if q else 40
+    ngen = 8 if q else 40
     for k in range(ngen):
         jobs.append(("gen-%d" % k,
                      cfg_text({"MaxV": 10 + 2 * (k % 4) if q else 10 + 3 * (k % 8),
-                               "GenSeed": (seed * 271 + k * 31 + 5) % 30011, "NCases": 2 if q else 4, "Emit": "TRUE"},
+                               "GenSeed": (seed * 271 + k * 31 + 5) % 30011, "NCases": 3 if q else 4, "Emit": "TRUE"},
                               "InitB", "NextB", ["InvB"]), 2, 6000, True))
     return jobs
 
@@ -591,7 +591,7 @@ def c07_plan(tier, seed):
     def nxt():
         chain[0] += 1
         return chain[0]
-    nmut = 60 if q else 1500
+    nmut = 150 if q else 1500
     for i in range(nmut):
         p = preset()
         big = (i % (30 if q else 40) == 7)
@@ -601,7 +601,7 @@ def c07_plan(tier, seed):
         plan.append({"kind": "mutated", "chain": nxt(), "P": p, "nvals": nvals(p, big), "fork": fork,
                      "epoch": rng.randint(0, 12), "slot_off": rng.randrange(p["SLOTS_PER_EPOCH"]),
                      "upgrade": fork == "phase0" and rng.random() < 0.6, "seed": rng.randrange(1 << 40)})
-    nchain = 10 if q else 200
+    nchain = 24 if q else 200
     for i in range(nchain):
         p = preset()
         if p["MAX_EFFECTIVE_BALANCE"] < 1000:      # rewards/penalties of a real chain wipe out such tiny balances
